@@ -338,6 +338,14 @@ def proof_step(prop, tier):
             names += found
     res['obligations'] = n
     res['theorems'] = names
+    # independent pass: Print Assumptions for EVERY theorem of the Props file, from the compiled library (does not
+    # rely on the Print Assumptions commands written in the file itself)
+    try:
+        pa = print_assumptions_each(prop, names)
+        res['pa_each'] = pa
+        res['assumptions'] = sorted(set(res['assumptions']) | set(pa['axioms']))
+    except Exception as e:      # never fatal: the file's own Print Assumptions output above stays authoritative
+        res['pa_each'] = {'error': str(e)[-300:]}
     res['proof_wall_s'] = round(time.time() - t0, 1)
     if tier == 'thorough' and os.environ.get('VERIF_NO_COQCHK') != '1':
         rc, out = sh('timeout 3000 coqchk -silent -o -Q . KV KV.Props.%s' % prop, cwd=COQ, timeout=3100)
@@ -345,6 +353,36 @@ def proof_step(prop, tier):
         if rc:
             res.update(ok=False, failed='coqchk', message=out[-2500:])
     return res
+
+
+def print_assumptions_each(prop, names, nchunks=8):
+    """Print Assumptions <name> for every theorem name of Props/<prop>.v, in parallel chunks, against the compiled
+    Props/<prop>.vo.  Returns {'theorems': n, 'closed': k, 'axioms': [...]}."""
+    d = os.path.join(BUILD, 'recheck', 'pa_' + prop)
+    os.makedirs(d, exist_ok=True)
+    for f in os.listdir(d):
+        os.remove(os.path.join(d, f))
+    chunks = [names[i::nchunks] for i in range(nchunks) if names[i::nchunks]]
+    procs = []
+    for i, ch in enumerate(chunks):
+        path = os.path.join(d, 'PA_%s_%d.v' % (prop, i))
+        with open(path, 'w') as f:
+            f.write('From KV Require Import Props.%s.\n' % prop + ''.join('Print Assumptions %s.\n' % t for t in ch))
+        procs.append(subprocess.Popen('timeout 600 coqc -Q %s KV %s' % (COQ, path), shell=True, cwd=d,
+                                      stdout=subprocess.PIPE, stderr=subprocess.STDOUT, text=True))
+    closed, axioms = 0, set()
+    for pr in procs:
+        out = pr.communicate()[0]
+        if pr.returncode:
+            raise RuntimeError('Print Assumptions pass failed: ' + out[-400:])
+        for blk in re.split(r'\n(?=Closed under|Axioms:)', '\n' + out):
+            if blk.startswith('Closed under'):
+                closed += 1
+            elif blk.startswith('Axioms:'):
+                for m in re.finditer(r'^([A-Za-z_][\w\.\']*)\s*:', blk, re.M):
+                    if m.group(1) != 'Axioms':
+                        axioms.add(m.group(1))
+    return {'theorems': len(names), 'closed': closed, 'axioms': sorted(axioms)}
 
 
 def _in_section(txt, lineno):
@@ -474,9 +512,11 @@ def write_evidence(ctx, violations, level='proof', extra_assumptions=()):
     discharged = ob if pr.get('ok') else 0
     tb = [
         'Coq 8.16.1 kernel (coqc; vm_compute used for finite sweeps, native_compute never)',
-        'Print Assumptions under each property theorem: %s' % (
+        'Print Assumptions, run in this check: %s' % (
             ('axioms ' + ', '.join(pr.get('assumptions'))) if pr.get('assumptions') else
-            ('all %d property theorems closed under the global context' % pr.get('closed', 0))),
+            ('separately for each of the %d theorems / examples of Props/%s.v: %d closed under the global context'
+             % (pr['pa_each']['theorems'], ctx.prop, pr['pa_each']['closed'])) if (pr.get('pa_each') or {}).get('theorems') else
+            ('all %d Print Assumptions commands of the property file closed under the global context' % pr.get('closed', 0))),
         'translator harness/vh/translate.py (Python ast, fail-closed) regenerating coq/Gen/Generated.v from /repo',
         'extraction (ExtrOcamlBasic directives only, Z kept as Coq datatype) + coq/Extract/driver.ml + OCaml 4.13.1',
         'behavioural correspondence harness (generators, canonicalisers, fixtures) in /verif/harness',
